@@ -107,6 +107,14 @@ def forced(enabled_labels, labels_so_far):
     return None
 
 
+def forced_for(w, enabled_labels):
+    """... and, when the application is run asyncio.run-style (cfg bit 2), the
+    loop is closed as soon as run_async has returned."""
+    if (w.ctx & 4) and w.labels and w.labels[-1][0] == 10:
+        return [11]
+    return forced(enabled_labels, w.labels)
+
+
 def query_enabled(walks):
     cases = []
     cands = []
@@ -134,7 +142,7 @@ def explore(rng, start, depth, cap):
         en = query_enabled(frontier)
         nxt = []
         for w, labs in zip(frontier, en):
-            f = forced(labs, w.labels)
+            f = forced_for(w, labs)
             if f is not None:
                 labs = [f]
             if not labs:
@@ -159,7 +167,7 @@ def close_forced(walks):
         en = query_enabled(live)
         any_f = False
         for w, labs in zip(live, en):
-            f = forced(labs, w.labels)
+            f = forced_for(w, labs)
             if f is not None:
                 w.take(f)
                 any_f = True
@@ -177,7 +185,7 @@ def random_walks(rng, starts, depth, weights):
         en = query_enabled(live)
         nl = []
         for w, labs in zip(live, en):
-            f = forced(labs, w.labels)
+            f = forced_for(w, labs)
             if f is not None:
                 w.take(f)
                 nl.append(w)
@@ -189,6 +197,69 @@ def random_walks(rng, starts, depth, weights):
             nl.append(w)
         live = nl
     return close_forced(walks)
+
+
+def drive_scripts(items):
+    """items: list of (walk, script).  Take the script's labels in order where the
+    model enables them (skipping those it does not), and every forced step."""
+    live = [(w, list(sc)) for w, sc in items]
+    for _ in range(400):
+        act = [(w, sc) for w, sc in live if sc]
+        if not act:
+            break
+        en = query_enabled([w for w, _ in act])
+        for (w, sc), labs in zip(act, en):
+            f = forced_for(w, labs)
+            if f is not None:
+                w.take(f)
+                continue
+            nxt = sc.pop(0)
+            if nxt in labs or nxt[0] in (1, 2):
+                w.take(nxt)
+    return close_forced([w for w, _ in live])
+
+
+def shutdown_chain_walks(rng, n):
+    """The family 'prints keep arriving while the application shuts down': a
+    section blocks the chain (a foreign in_terminal section, or a print waiting
+    for a cursor position report), the application exits, k more bundles are
+    chained behind it, the blocker ends, run_async returns and - asyncio.run
+    style - the loop is closed at once."""
+    items = []
+    for _ in range(n):
+        k_before = rng.choice([0, 0, 1, 2])
+        k_after = rng.randint(2, 9)
+        cfg = rng.choice([5, 5, 7, 7, 4, 1, 3])
+        texts = ["%s\n" % chr(ord("a") + i) for i in range(k_before + k_after)]
+        nthreads = rng.choice([1, 1, 2])
+        progs = [[] for _ in range(nthreads)]
+        script = [[8]]
+        use_ext = not (cfg & 2) or rng.random() < 0.5
+        if use_ext:
+            script.append([14])
+            if cfg & 2:
+                script.append(rng.choice([[17], [18]]))
+
+        def bundle(i):
+            t = i % nthreads
+            progs[t].append(("w", texts[i]))
+            return [[1, t, S(texts[i])], [4], [5], [6], [7], [12]]
+        for i in range(k_before):
+            script += bundle(i)
+        script.append([9])
+        for i in range(k_before, k_before + k_after):
+            script += bundle(i)
+            if rng.random() < 0.15:
+                script.append([13])
+        if use_ext:
+            script.append([15])
+        if cfg & 2:
+            script += [rng.choice([[17], [18]]), [18]]
+        script += [[2, 0], [3], [4], [5], [4]]
+        progs[0].append(("f",))
+        w = Walk(progs, "lifecycle", cfg, {8: 1, 9: 1, 11: 1, 13: 3, 14: 1})
+        items.append((w, script))
+    return drive_scripts(items)
 
 
 TEXTS = ["a\n", "b", "", "c\nd", "\n", "e\n\nf", "gh\n"]
@@ -272,6 +343,7 @@ def gen_schedules(chk):
                  {8: 2, 9: 2, 11: 1, 13: 1, 14: 1, "early_close": rng.random() < 0.1})
         starts.append(w)
     add(random_walks(rng, starts, 70, {**wt_flush, 8: 2.0, 9: 0.6, 11: 0.4}), "random-lifecycle")
+    add(shutdown_chain_walks(rng, 250 if thorough else 40), "shutdown-chain")
     return scheds, dist
 
 
@@ -285,7 +357,7 @@ def nwriters_of(labels):
 def replay_schedule(ctx, labels, complete=True):
     """-> (canonical result like the model's, info dict for the oracle)"""
     steps = mark_reports(labels)
-    rig = c20_rig.Rig(bool(ctx & 1), True, nwriters_of(labels), cpr=bool(ctx & 2))
+    rig = c20_rig.Rig(bool(ctx & 1), True, nwriters_of(labels), cpr=bool(ctx & 2), runstyle=bool(ctx & 4))
     obs = []
     status = None
     try:
@@ -563,6 +635,89 @@ def _stress(chk, scenario, nthreads, nwrites, seed):
                  "leaked": rig.leaked_threads(), "flags": sorted(rig.flags), "chars": sum(len(t) for p in per for t in p)}
 
 
+def patch_exit_probe(seed, rounds):
+    """The patch_stdout() context manager itself, with a second thread printing
+    across its exit and a slow terminal: every character printed through
+    sys.stdout while it WAS the proxy (still the proxy when the call returned)
+    must be written.  (Model: LPW/LRestore/LClose, C20_patch_stdout_*.)
+    Oracle only."""
+    import io
+    import random as _r
+    import sys as _sys
+    from prompt_toolkit.application import create_app_session
+    from prompt_toolkit.input import DummyInput
+    from prompt_toolkit.output import DummyOutput
+    from prompt_toolkit.patch_stdout import StdoutProxy, patch_stdout
+
+    class Slow(DummyOutput):
+        def __init__(self):
+            self.chunks = []
+
+        def write(self, data):
+            self.chunks.append(data)
+            time.sleep(0.0005)
+
+        def write_raw(self, data):
+            self.chunks.append(data)
+            time.sleep(0.0005)
+
+    rr = _r.Random(seed)
+    bad = []
+    old_si = _sys.getswitchinterval()
+    real_out, real_err = _sys.stdout, _sys.stderr
+    for rnd in range(rounds):
+        out = Slow()
+        counted = []
+        stop = threading.Event()
+        started = threading.Event()
+
+        def printer():
+            i = 0
+            while not stop.is_set():
+                s = _sys.stdout
+                tok = "<%d>\n" % i
+                if i % 3 == 0:
+                    tok = "<%d>" % i
+                s.write(tok)
+                if isinstance(s, StdoutProxy) and _sys.stdout is s:
+                    counted.append(tok)
+                i += 1
+                started.set()
+                if i % 16 == 0:
+                    time.sleep(0.0002)
+        t = threading.Thread(target=printer, daemon=True)
+        _sys.stdout = _sys.stderr = io.StringIO()      # what patch_stdout() hands back
+        try:
+            _sys.setswitchinterval(1e-6)
+            with create_app_session(input=DummyInput(), output=out):
+                with patch_stdout():
+                    t.start()
+                    started.wait(5)
+                    time.sleep(rr.choice([0.002, 0.01, 0.03]))
+                stop.set()
+                t.join(10)
+        finally:
+            _sys.setswitchinterval(old_si)
+            _sys.stdout, _sys.stderr = real_out, real_err
+        if t.is_alive():
+            bad.append(("harness", "printer thread stuck"))
+            break
+        text = "".join(out.chunks)
+        # a trailing partial line may legitimately still sit in _buffer: compare up to the last newline counted
+        want = "".join(counted)
+        want = want[:want.rfind("\n") + 1]
+        if not text.startswith(want):
+            k = 0
+            while k < min(len(text), len(want)) and text[k] == want[k]:
+                k += 1
+            bad.append(("lost", "thread B prints through sys.stdout while thread A leaves `with patch_stdout():` "
+                                "(round %d): %d characters printed while sys.stdout was the proxy, the terminal got %d; "
+                                "first difference at %d: expected %r, got %r" % (
+                                    rnd, len(want), len(text), k, want[k:k + 30], text[k:k + 30])))
+            break
+    return bad, {"scenario": "patch-exit", "rounds": rounds, "seed": seed, "leaked": []}
+
+
 def render_fault_probe():
     """A redraw of the prompt that raises once right after a patched print (a
     widget callback failing) must not stop later prints: in_terminal resolves
@@ -679,11 +834,13 @@ def main(tier):
     st_runs = []
     nth, nwr = (4, 3000) if chk.tier == "thorough" else (4, 1000)
     reps = 10 if chk.tier == "thorough" else 3
-    for scenario in ("noapp", "running", "lifecycle", "partial", "render-fault"):
-        for r in range(reps if scenario != "render-fault" else 1):
+    for scenario in ("noapp", "running", "lifecycle", "partial", "render-fault", "patch-exit"):
+        for r in range(reps if scenario not in ("render-fault", "patch-exit") else 1):
             try:
                 if scenario == "render-fault":
                     bad, meta = with_watchdog(render_fault_probe, 60)
+                elif scenario == "patch-exit":
+                    bad, meta = with_watchdog(lambda: patch_exit_probe(chk.seed, 40 if chk.tier == "thorough" else 12), 120)
                 else:
                     bad, meta = with_watchdog(lambda: stress(chk, scenario, nth, nwr if scenario != "partial" else 4 * nwr,
                                                              chk.seed * 17 + r), 150)
@@ -745,6 +902,10 @@ def replay(data):
     if "stress" in rep:
         m = rep["stress"]
         chk = types_ns()
+        if m["scenario"] == "patch-exit":
+            bad, meta = patch_exit_probe(m.get("seed", 0), m.get("rounds", 12))
+            print("patch-exit probe ->", bad or "oracle ok")
+            return 1 if bad else 0
         if m["scenario"] == "render-fault":
             bad, meta = render_fault_probe()
             print("render-fault probe ->", bad or "oracle ok")
